@@ -731,6 +731,11 @@ def WHO_tables(ctx):
             if facts.is_test(b['fn'], b):
                 continue
             callers |= facts.owners(b['fn'])
+        if not callers and pat == 'Scheduler::mark_mv_estimate':
+            # the marker was moved: whoever sets MemoryEntry.estimate now stands for its callers
+            for b in facts.production():
+                if body_writes_field(b, 'MemoryEntry.estimate'):
+                    callers |= facts.owners(b['fn'])
         ctx.ob('WHO', pat, 'who-may-call', bool(callers) and callers <= allowed, f'callers {sorted(callers)}; allowed {sorted(allowed)}', what=why)
     # tx_results writers: stores (assignments through the guard) and takes
     w = collections.defaultdict(set)
